@@ -34,6 +34,7 @@ EXTENDS Integers, Sequences, FiniteSets, TLC
 (*   r10 = range(10);  r_huge = range(2^62)                                *)
 (*   lam = lambda *a, **k: None;  blt = the built-in len;  strct = struct(a=1, b=[2]) *)
 (*   h_iter = a host iterable that yields 1, h_bad, 2 (consumers fail midway) *)
+(*   h_iter1 = a host iterable of unknown length that yields one element    *)
 (*   h_bad  = a host value whose Hash and comparison report errors, truth False *)
 (*   tm / dur = a time.time and a time.duration value                      *)
 (***************************************************************************)
@@ -44,13 +45,13 @@ Pool == << "none", "true", "false",
            "s_empty", "s_a", "s12", "s40", "s_bad", "s_fmt", "b_empty", "b_ab",
            "l_empty", "l_123", "l_frozen", "l_self", "l_nest", "t_empty", "t_12",
            "d_empty", "d_ab", "d_frozen", "d_self", "set_empty", "set_12", "set_frozen",
-           "r10", "r_huge", "lam", "blt", "strct", "h_iter", "h_bad", "tm", "dur" >>
+           "r10", "r_huge", "lam", "blt", "strct", "h_iter", "h_iter1", "h_bad", "tm", "dur" >>
 P == Len(Pool)
 PoolIx == 1..P
 Idx(code) == CHOOSE i \in PoolIx : Pool[i] = code
 
-\* the 10-value sub-pool of the quick tier (arity 2) and of the keyword forms
-SubPool == << "none", "i0", "im1", "i2p62", "s_a", "l_123", "l_self", "d_ab", "r_huge", "h_bad" >>
+\* the 11-value sub-pool of the quick tier (arity 2) and of the keyword forms
+SubPool == << "none", "i0", "im1", "i2p62", "s_a", "l_123", "l_self", "d_ab", "r_huge", "h_bad", "h_iter1" >>
 SubIx == {Idx(SubPool[i]) : i \in 1..Len(SubPool)}
 
 \* the 23-value pool of the arity-3 covering array of the thorough tier: one or two values per type
@@ -160,7 +161,7 @@ KindOf(c) ==
     [] c \in {"set_empty", "set_12", "set_frozen"} -> "set"
     [] c \in {"r10", "r_huge", "r0", "r3"} -> "range"
     [] c \in {"lam", "blt"} -> "function" [] c = "strct" -> "struct"
-    [] c \in {"h_iter", "h_bad"} -> "host" [] c \in {"tm", "dur"} -> "time"
+    [] c \in {"h_iter", "h_iter1", "h_bad"} -> "host" [] c \in {"tm", "dur"} -> "time"
     [] OTHER -> "index"
 
 (***************************************************************************)
